@@ -981,3 +981,74 @@ namespace Py
 theorem holds_ok {α : Type} {x : R α} {v : α} {Q : α → Prop} {E : Exc → Prop} (h : x = .ok v) (hs : Holds x Q E) : Q v := by
   rw [h] at hs; exact hs
 end Py
+
+namespace Py
+/-- the digit condition of `int(s, b)` as a character class (closed by the `AllIn` machinery) -/
+def digitBelow (b : Nat) (c : Nat) : Bool := (asciiDigitVal36 c).any (fun v => decide (v < b))
+
+theorem digitBelow_iff {b c : Nat} : (∃ v, asciiDigitVal36 c = some v ∧ v < b) ↔ digitBelow b c = true := by
+  unfold digitBelow
+  cases asciiDigitVal36 c <;> simp
+
+theorem forall_digitBelow_iff {b : Nat} {s : Str} :
+    (∀ c ∈ s, ∃ v, asciiDigitVal36 c = some v ∧ v < b) ↔ AllIn (digitBelow b) s := by
+  unfold AllIn
+  simp only [digitBelow_iff]
+
+theorem allIn_of_digits_any {Q : Nat → Bool} {s : Str} (hs : AllIn isAsciiDigit s)
+    (hQ : (List.range' 48 10).all Q = true) : AllIn Q s :=
+  fun c hc => of_isAsciiDigit hQ (hs c hc)
+end Py
+
+namespace Py
+theorem of_strOfInt_nonneg_eq {Q : Nat → Bool} (hQ : (List.range' 48 10).all Q = true) {n : Int} {c : Nat}
+    (hn : 0 ≤ n) (h : strOfInt n = [c]) : Q c = true :=
+  of_isAsciiDigit hQ (strOfInt_allDigits hn c (by rw [h]; simp))
+
+theorem of_strOfInt_nonneg_eq' {Q : Nat → Bool} (hQ : (List.range' 48 10).all Q = true) {n : Int} {c : Nat}
+    (hn : 0 ≤ n) (h : [c] = strOfInt n) : Q c = true := of_strOfInt_nonneg_eq hQ hn h.symm
+end Py
+
+namespace Py
+/-- reflexive ("graph") specification: running `x` tells which value it returned.  Used for the functions shared by
+`validate` and a getter: the getter repeats a call `validate` already made, with the same result. -/
+theorem graph_spec {α : Type} (x : R α) :
+    ⦃⌜True⌝⦄ x ⦃post⟨fun r => ⌜x = .ok r⌝, fun _ => ⌜True⌝⟩⦄ :=
+  triple_of_holds x _ _ (by unfold Holds; cases x <;> simp)
+
+theorem ok_bind {α β : Type} (a : α) (f : α → R β) : ((Except.ok a : R α) >>= f) = f a := rfl
+theorem ok_map {α β : Type} (a : α) (f : α → β) : (f <$> (Except.ok a : R α)) = Except.ok (f a) := rfl
+theorem ok_eq_pure {α : Type} (a : α) : (Except.ok a : R α) = pure a := rfl
+end Py
+
+namespace Py
+theorem ne_nil_of_endswith {s p : Str} (h : endswith s p = true) (hp : p ≠ []) : s ≠ [] := by
+  have := endswith_length_le h
+  have : 0 < p.length := List.length_pos_iff.mpr hp
+  exact List.ne_nil_of_length_pos (by omega)
+theorem ne_nil_of_startswith {s p : Str} (h : startswith s p = true) (hp : p ≠ []) : s ≠ [] := by
+  have := startswith_length_le h
+  have : 0 < p.length := List.length_pos_iff.mpr hp
+  exact List.ne_nil_of_length_pos (by omega)
+end Py
+
+namespace Py
+/-- class of a character from membership of the one-character string in a table of strings -/
+theorem of_contains_single {Q : Nat → Bool} {L : List Str} {c : Nat}
+    (hQ : L.all (fun s => match s with | [a] => Q a | _ => true) = true) (h : L.contains [c] = true) : Q c = true := by
+  have hm : [c] ∈ L := by simpa using h
+  have := List.all_eq_true.mp hQ [c] hm
+  simpa using this
+
+theorem of_contains_pair_fst {Q : Nat → Bool} {L : List Str} {a b : Nat}
+    (hQ : L.all (fun s => match s with | [x, _] => Q x | _ => true) = true) (h : L.contains [a, b] = true) : Q a = true := by
+  have hm : [a, b] ∈ L := by simpa using h
+  have := List.all_eq_true.mp hQ [a, b] hm
+  simpa using this
+
+theorem of_contains_pair_snd {Q : Nat → Bool} {L : List Str} {a b : Nat}
+    (hQ : L.all (fun s => match s with | [_, y] => Q y | _ => true) = true) (h : L.contains [a, b] = true) : Q b = true := by
+  have hm : [a, b] ∈ L := by simpa using h
+  have := List.all_eq_true.mp hQ [a, b] hm
+  simpa using this
+end Py
